@@ -152,6 +152,7 @@ fn emphasised_ops() -> BoxedStrategy<Vec<Op>> {
         1 => Just(Op::Public(Fe(F::zero()))),
         2 => fe_any().prop_map(Op::Public),
         2 => (0u16..4).prop_map(Op::Pad),
+        2 => (0u16..6).prop_map(Op::PadDistinct),
         6 => prog::light_op(),
         1 => prog::medium_op(),
     ];
@@ -182,7 +183,7 @@ fn case_strategy(t: Tier) -> BoxedStrategy<Case> {
 }
 
 fn check(ctx: &Ctx, c: &Case) -> PResult {
-    let (program, n) = c01::padded_program(&c.ops, c.target, 40000)?;
+    let (program, n) = c01::padded_program(&c.ops, c.target, 40000 + (c.seed & 1) as u16)?;
     let minimal = sys::min_capacity(n);
     let cap = (minimal as i64 + c.cap_delta as i64).max(1) as usize;
     let pp = sys::pp(cap);
@@ -384,11 +385,53 @@ fn legit_peak(cap: usize) -> usize {
     v
 }
 
+/// Exact-fit sweep: circuits in which EVERY gate has its own selector tuple
+/// (so every dictionary of the description is as long as it can get) at
+/// constraint counts 2^k - 8..=2^k - 4, against capacities on both sides of
+/// the threshold. Generated programs practically never fill the dictionaries
+/// (two `append_public` rows already share a tuple).
+pub fn sweeps(ctx: &Ctx) {
+    let max_k = ctx.tier.pick(7u32, 10u32);
+    let mut n_cases = 0u64;
+    for k in 4..=max_k {
+        for d in [-8i8, -7, -6, -5, -4] {
+            for (cap_delta, with_pi) in [(0i8, false), (1, true), (-1, false), (8, true)] {
+                let mut ops = Vec::new();
+                if with_pi {
+                    ops.push(Op::Gate {
+                        q: [Fe(F::from(k as u64 + 2)), Fe(F::one()), Fe(F::zero()), Fe(F::zero()), Fe(F::zero())],
+                        qc: Fe(F::zero()),
+                        w: [0, 0, 0, 0],
+                        pi: crate::prog::Pi::Val(Fe(F::from(77u64))),
+                    });
+                }
+                let c = Case {
+                    ops,
+                    target: Some((k, d)),
+                    label: b"exact-fit".to_vec(),
+                    cap_delta,
+                    rebuilt: (k % 3) as u8,
+                    hostile: (k as u8 + d as u8) % 14,
+                    h1: k * 31 + d as u32,
+                    // odd seed: padding with pairwise distinct selector tuples
+                    seed: (ctx.seed << 1) | 1,
+                };
+                n_cases += 1;
+                if let Err(f) = check(ctx, &c) {
+                    ctx.violation("compressed", &f, serde_json::to_value(&c).unwrap());
+                    return;
+                }
+            }
+        }
+    }
+    ctx.label_n("sweep: all-distinct selector tuples at exact-fit sizes", n_cases);
+}
+
 pub fn props() -> Vec<(Box<dyn PropDyn>, u32, u32)> {
     vec![(Box::new(Prop::new("compressed", case_strategy, check).shrink(120)), 640, 12000)]
 }
 
 pub fn describe(ctx: &Ctx) {
-    ctx.rule("cases: generated programs emphasising unused witnesses, allocation order != first-use order, repeated and distinct selector tuples, selectors 0/+-1 and entries of the built-in constant table, zero-valued public inputs, public inputs on the first and last row, sizes around 2^k-6, x labels x every capacity in minimal-8..=minimal+8 (non powers of two included). Oracle: direct and compressed routes succeed for exactly the same capacities with byte-identical Prover and Verifier; hand-built encodings of the same circuit (own MessagePack+deflate encoder: sparse witness labels, reversed polynomial table, a declared witness count of 2^20..2^63 over unchanged labels - allocation bounded like every other compile) compile to the same keys; 14 hostile description kinds (more constraints than capacity, out-of-range polynomial/scalar/witness/public-input indices, unsorted/duplicate public-input rows, trailing bytes after the MessagePack value / the deflate stream, 64 MiB deflate bomb, 2^32-1 declared entries, non-canonical scalar, zero witnesses, truncated payload) are refused with an error, without panic, with per-thread peak allocation <= 2x a legitimate maximal-capacity compile + 1 MiB. non-trivial = more than the fixed rows and capacity within 8 of the threshold; distinct by (layout digest, capacity, label)");
+    ctx.rule("cases: generated programs emphasising unused witnesses, allocation order != first-use order, repeated and distinct selector tuples, selectors 0/+-1 and entries of the built-in constant table, zero-valued public inputs, public inputs on the first and last row, sizes around 2^k-6, x labels x every capacity in minimal-8..=minimal+8 (non powers of two included). Oracle: direct and compressed routes succeed for exactly the same capacities with byte-identical Prover and Verifier; hand-built encodings of the same circuit (own MessagePack+deflate encoder: sparse witness labels, reversed polynomial table, a declared witness count of 2^20..2^63 over unchanged labels - allocation bounded like every other compile) compile to the same keys; 14 hostile description kinds (more constraints than capacity, out-of-range polynomial/scalar/witness/public-input indices, unsorted/duplicate public-input rows, trailing bytes after the MessagePack value / the deflate stream, 64 MiB deflate bomb, 2^32-1 declared entries, non-canonical scalar, zero witnesses, truncated payload) are refused with an error, without panic, with per-thread peak allocation <= 2x a legitimate maximal-capacity compile + 1 MiB. plus an exact-fit sweep of circuits whose gates all carry distinct selector tuples (full dictionaries) at 2^k-8..2^k-4 constraints. non-trivial = more than the fixed rows and capacity within 8 of the threshold; distinct by (layout digest, capacity, label)");
     ctx.assume("selectors equal to built-in table entries are drawn from the table the crate exposes through the verif hook (values only; their indices are never used)");
 }
